@@ -233,6 +233,7 @@ struct ScanStdin {
 }
 impl ScanStdin {
   fn try_new(arg: ScanArg) -> Result<Self> {
+    let overwrite = RuleOverwrite::new(&arg.overwrite)?;
     let rules = if let Some(path) = &arg.rule {
       read_rule_file(path, None)?
     } else if let Some(text) = &arg.inline_rules {
@@ -241,6 +242,9 @@ impl ScanStdin {
     } else {
       return Err(anyhow::anyhow!(EC::RuleNotSpecified));
     };
+    // as in a path scan: command line severity applies, and a rule that is off does not run
+    let mut rules = overwrite.process_configs(rules)?;
+    rules.retain(|r| !matches!(r.severity, Severity::Off));
     Ok(Self {
       rules,
       error_count: AtomicUsize::new(0),
@@ -271,7 +275,10 @@ impl StdInWorker for ScanStdin {
     processor: &P::Processor,
   ) -> Result<Vec<P::Processed>> {
     use ast_grep_core::Language;
-    let lang = self.rules[0].language;
+    let Some(first) = self.rules.first() else {
+      return Ok(vec![]);
+    };
+    let lang = first.language;
     let combined = CombinedScan::new(self.rules.iter().collect());
     let grep = lang.ast_grep(src);
     let path = Path::new("STDIN");
